@@ -95,6 +95,13 @@ def gen(rng, tier):
             cs.append(Case("stream_init_pull_view %s %s" % (hx(rbytes(rng, kl)), hx(rbytes(rng, hl))), cls="observation/init_pull-view", meta={"panic_ok": True, "no_sodium": True}))
     for b in range(256):
         cs.append(Case("tag_from_u8 %02x" % b, cls="observation/tag-from-u8", meta={"panic_ok": True, "no_sodium": True}))
+    # the parser of ORDINARY boxes followed by the opener of SEALED boxes (an API mix-up a caller can make with attacker bytes):
+    # every length 0..=120 — an error, never a panic or an absurd allocation
+    for n in range(0, 121):
+        I = Inst(rng, 3, style=0)
+        for cname, data in list(contents(rng, n, I.bx))[:3]:
+            cs.append(Case("boxobj_frombytes_unseal x %s %s %s" % (hx(I.rpk), hx(I.rsk), hx(data)), cls="from_bytes-then-unseal/" + cname, expect=totality,
+                           meta={"no_sodium": True, "no_spec": True, "why": "VecBox::from_bytes(%d bytes) then unseal" % n}))
     if signfam:
         cs += signfam.c04_cases(rng, tier)
     if pwfam:
